@@ -34,10 +34,10 @@ TEXT = {
         'technique': 'Verus loop invariant + mixed-radix lemmas; Kani harnesses on Spectrum::fold (bounded)',
     },
     'C06': {
-        'level_text': 'Exactly decidable subset only: KING, R0, R1 equal the stated ratios on every 3x3 table with integer cells < 2^16 (loop-free Kani, complete); S, sum, pi_xy equal their definitions on an integer-valued 3x4 spectrum (bounded). The other statistics are floating-point formulas through exp/ln/sqrt and are not decided.',
+        'level_text': 'Bounded stand-ins only (floating point; symbolic f64 cells do not finish under CBMC): KING, R0, R1 equal the stated ratios on one asymmetric integer 3x3 table; S, sum, pi_xy equal their definitions exactly on an integer-valued 3x4 spectrum; Watterson theta and pi (3, 4, 5 chromosomes), f2 and Hudson Fst (3x4), f3 (2x3x3), f4 (2x3x2x2) equal independently written defining sums on one concrete table each up to 1e-9. Tajima D and Fu-Li D (sqrt, exp/ln) and the genotype-level reading are not decided.',
         'design_ref': 'DESIGN.md 5/C06',
-        'level_note': _K + '8 of 14 statistics and the genotype-level reading are not decided.',
-        'technique': 'Kani harnesses against the definitions (complete for KING/R0/R1, bounded for S/sum/pi_xy)',
+        'level_note': _K + 'every harness is one concrete table (bounded, not a proof); 2 of 14 statistics and the genotype-level reading are not decided; binomial and powi are stubbed by a table / repeated multiplication.',
+        'technique': 'Kani harnesses executing the real statistics on concrete tables against independently written definitions (bounded)',
     },
     'C07': {
         'level_text': 'npy value path only: the writer emits header then exactly the values in data order as 8 little-endian bytes each (Verus, unbounded, any sink), f64 LE encode/decode is the identity on all 2^64 bit patterns and the f8 decoder returns exactly the decoded value (Kani, complete). Text format, header text round trip and cross-command acceptance are not decided.',
@@ -64,7 +64,7 @@ TEXT = {
         'technique': 'Kani harness with unconstrained pre-state (history-free postcondition) + Verus odometer contract',
     },
     'C14': {
-        'level_text': 'Non-interference and exact symmetries only: S, pi, Watterson, Tajima D, Fu-Li D, pi_xy, KING, R0, R1 give bit-identical results when only the two monomorphic cells differ (all f64 bit patterns; bounded shapes; binomial stubbed by one table for both runs); KING, R0, R1 are invariant under swapping the two individuals on all integer 3x3 tables. The real-number identities (f3/f4 via f2, folding, scaling) are not decided.',
+        'level_text': 'Non-interference and a few symmetries only: S, pi, Watterson, pi_xy, KING, R0, R1 give bit-identical results when only the two monomorphic cells differ (all f64 bit patterns; bounded shapes; binomial stubbed by one table for both runs); KING, R0, R1 are invariant under swapping the two individuals on one integer 3x3 table; f2 and Fst of the transposed table and f3 = (f2(A,B)+f2(A,C)-f2(B,C))/2 over the marginals hold on one concrete table each up to 1e-9 (thorough tier). The D statistics (sqrt) and the other real-number identities (f4 via f2, folding, scaling) are not decided.',
         'design_ref': 'DESIGN.md 5/C14',
         'level_note': _K + 'identities over the reals do not hold bitwise in f64 and are not claimed.',
         'technique': 'Kani two-run non-interference harnesses (bounded shapes, full f64 domain for the varied cells)',
